@@ -94,6 +94,78 @@ theorem C16_jpeg_short (bs : List Nat) (h : bs.length < 10 ∨ bs.take 2 ≠ [0x
     jpegDims bs = none := by
   simp [jpegDims, h]
 
+/-! ## no header window: metadata of any size in front of the frame header, data of any size behind
+
+`jpegDims` / `pngDims` walk the whole byte list — there is no bound on where the dimension-bearing
+structure may stand. `C16_jpeg_sof` already quantifies over item lists of any length with payloads
+of any length; the theorems below say so explicitly. -/
+
+/-- Whatever well-formed marker segments (APPn / COM / DQT / DHT …, each of any length up to the
+65535 the length field can express, and as many as one likes), stand-alone markers and fill bytes
+are put between SOI and the rest of the stream, the answer is that of the stream without them: the
+same frame header is found, or none in both. -/
+theorem C16_jpeg_prefix_irrelevant (items : List JpegItem) (hok : ∀ it ∈ items, it.WellFormed)
+    (R : List Nat) :
+    jpegDims ([0xFF, 0xD8] ++ items.flatMap JpegItem.bytes ++ R) = jpegDims ([0xFF, 0xD8] ++ R) :=
+  jpegDims_prefix_irrelevant items hok R
+
+/-- The frame header is found at every offset `2 + 65537·k`: after `k` maximum-length segments
+(length field `FF FF`, 65533 payload bytes each — e.g. an ICC profile split over APP2 segments),
+for every `k`. No prefix of the file of a fixed size ("header window") contains the frame header
+of all files. -/
+theorem C16_jpeg_sof_at_any_offset (m : Nat) (hm : m ≠ 0xFF ∧ isStandalone m = false ∧ isSof m = false)
+    (payloads : List (List Nat)) (hp : ∀ p ∈ payloads, p.length = 65533)
+    (sm l1 l2 pr w h : Nat) (rest : List Nat) (hs : isSof sm = true) (hrest : rest ≠ []) :
+    ([0xFF, 0xD8] ++ payloads.flatMap (fun p => 0xFF :: m :: 0xFF :: 0xFF :: p)).length
+      = 2 + 65537 * payloads.length ∧
+    jpegDims ([0xFF, 0xD8] ++ payloads.flatMap (fun p => 0xFF :: m :: 0xFF :: 0xFF :: p) ++
+      [0xFF, sm, l1, l2, pr, h / 256, h % 256, w / 256, w % 256] ++ rest) = some (w, h) := by
+  constructor
+  · have : (payloads.flatMap (fun p => 0xFF :: m :: 0xFF :: 0xFF :: p)).length = 65537 * payloads.length := by
+      induction payloads with
+      | nil => rfl
+      | cons p ps ih =>
+        have h1 := hp p (by simp)
+        have h2 := ih (fun q hq => hp q (by simp [hq]))
+        simp only [List.flatMap_cons, List.length_append, List.length_cons, h1, h2]
+        omega
+    simp only [List.length_append, this]
+    rfl
+  · apply jpegDims_valid
+    refine ⟨payloads.map (fun p => JpegItem.seg 0 m 0xFF 0xFF p), 0, sm, l1, l2, pr, rest, ?_, hs, hrest, ?_⟩
+    · intro it hit
+      obtain ⟨p, hpm, rfl⟩ := List.mem_map.mp hit
+      exact ⟨hm.1, hm.2.1, hm.2.2, by rw [hp p hpm]⟩
+    · have e : (payloads.map (fun p => JpegItem.seg 0 m 0xFF 0xFF p)).flatMap JpegItem.bytes =
+          payloads.flatMap (fun p => 0xFF :: m :: 0xFF :: 0xFF :: p) := by
+        induction payloads with
+        | nil => rfl
+        | cons p ps ih =>
+          simp only [List.map_cons, List.flatMap_cons, ih (fun q hq => hp q (by simp [hq]))]
+          simp [JpegItem.bytes]
+      rw [e]
+      simp
+
+/-- image data of any size behind the frame header changes nothing: what was found stays found -/
+theorem C16_jpeg_tail_irrelevant (bs tail : List Nat) (d : Nat × Nat) (hd : jpegDims bs = some d) :
+    jpegDims (bs ++ tail) = some d :=
+  jpegDims_append bs tail d hd
+
+/-- PNG: IHDR is the first chunk; ancillary chunks and image data of any size behind the first 25
+bytes change nothing -/
+theorem C16_png_tail_irrelevant (bs tail : List Nat) (h : 24 < bs.length) :
+    pngDims (bs ++ tail) = pngDims bs :=
+  pngDims_append bs tail h
+
+/-- … whereas cutting a JPEG anywhere before the 10th byte of its frame header (what a header
+window shorter than the metadata does) loses the dimensions: the first `n` bytes of
+SOI + well-formed items + frame header, `n` ending inside the first 9 bytes of the header or
+earlier at an item boundary, yield nothing -/
+theorem C16_jpeg_cut_before_header_loses (items : List JpegItem) (hok : ∀ it ∈ items, it.WellFormed)
+    (hdr : List Nat) (n : Nat) (hn : n ≤ 9) :
+    jpegDims ([0xFF, 0xD8] ++ items.flatMap JpegItem.bytes ++ hdr.take n) = none :=
+  jpegDims_none items hok (hdr.take n) (by simp [List.length_take]; omega)
+
 /-! ## picture type -/
 
 theorem C16_blip_of_suffix (sfx : List Char) :
